@@ -159,7 +159,7 @@ def gen_array(rng, kind, n):
     cur = [e() for _ in range(n)]
     lines = ["array %s %d " % (kind, n) + " ".join(map(str, cur))]
     for _ in range(rng.randrange(6, 26)):
-        o = rng.choice(["front", "back", "back", "idx", "put", "iter", "eq", "eq", "eqv", "eqv", "eqself", "size", "get", "swap", "concat"])
+        o = rng.choice(["front", "back", "back", "idx", "put", "iter", "eq", "eq", "eqv", "eqv", "eqself", "size", "get", "swap", "concat", "concatz"])
         if o == "idx":
             lines.append("idx %d" % rng.randrange(n))
         elif o == "put":
@@ -175,6 +175,8 @@ def gen_array(rng, kind, n):
         elif o == "swap":
             v = [e() for _ in range(n)]
             lines.append("swap " + " ".join(map(str, v))); cur = v
+        elif o == "concatz":
+            lines.append("concatz " + " ".join(str(e()) for _ in range(5)))
         elif o == "concat":
             m = rng.choice([1, 2, 3, 5] if kind == "u64" else [2, 5])
             lines.append("concat %d " % m + " ".join(str(e()) for _ in range(5)))
@@ -238,6 +240,10 @@ def corpus():
     cs.append(("corpus-array-eq-nan", ["array f64 1 2", "eqself", "eq 2", "eq 9"]))
     cs.append(("corpus-array-eq-f32", ["array f32 4 0 2 3 7", "eqself", "eq 1 2 3 7", "put 1 6", "eq 1 6 3 7", "eqself"]))
     cs.append(("corpus-array-eq-pad-enum-ptr", ["array pad 3 1 258 515", "eq 1 2 771", "eq 1 258 516", "eqself"]))
+    # seeded change (round 2): concat_insert stopped at a zero-length piece that is not the last argument
+    cs.append(("corpus-array-concat-empty-pieces", ["array u64 3 10 20 30", "concatz 1 2 3 4 5"]))
+    cs.append(("corpus-array-concat-empty-f64", ["array f64 1 2", "concatz 1 0 9 5 3"]))
+    cs.append(("corpus-array-concat-empty-constexpr", ["array cconcat"]))
     cs.append(("corpus-array-concat-5", ["array u64 2 1 2", "concat 3 7 8 9 10 11", "concat 5 1 2 3 4 5"]))
     cs.append(("corpus-d21-ctor-mask", ["bitset 12", "val 0 65535", "count 0"]))
     cs.append(("corpus-d21-ctor-upper-words", ["bitset 70", "val 0 5", "count 0"]))
